@@ -114,7 +114,8 @@ def run_one(sc, root, helper, tacd_dir):
                 # the unix group has one socket per identifier
                 at = listen if sc["group"] != "tls-alpn-01-tacd-unix" else \
                     "unix:" + os.path.join(sock_root, "tacd_%s.sock" % authz["identifier"]["value"])
-                hs = tacdrun.handshake(at, [tacdrun.ACME_ALPN], server_name=authz["identifier"]["value"], timeout=2.0)
+                hs = tacdrun.handshake(at, [tacdrun.ACME_ALPN], server_name=authz["identifier"]["value"], timeout=2.0,
+                                       max_tls12=sc["idx"] % 2 == 1)   # every other CA validates over TLS 1.2
                 if hs.get("ok"):
                     break
                 time.sleep(0.05)
